@@ -318,6 +318,42 @@ func runMC(c *core.Ctx, d *drv, label string, o core.TLCOpts, handle func(d *drv
 	return res, nil
 }
 
+type mcJob struct {
+	label string
+	opts  core.TLCOpts
+}
+
+// runJobs runs independent TLC enumerations side by side (3 at a time), each with its own drivers.
+func runJobs(c *core.Ctx, d *drv, jobs []mcJob, h func(d *drv, raws []json.RawMessage) error) error {
+	sem := make(chan struct{}, 3)
+	errs := make(chan error, len(jobs))
+	for _, j := range jobs {
+		j := j
+		go func() {
+			sem <- struct{}{}
+			defer func() { <-sem }()
+			dj, err := d.fresh()
+			if err != nil {
+				errs <- err
+				return
+			}
+			defer dj.Close()
+			if j.opts.Workers == 0 {
+				j.opts.Workers = workers(c)/2 + 1
+			}
+			_, err = runMC(c, dj, j.label, j.opts, h)
+			errs <- err
+		}()
+	}
+	var first error
+	for range jobs {
+		if err := <-errs; err != nil && first == nil {
+			first = err
+		}
+	}
+	return first
+}
+
 func lexOpts(lang, maxChars, fullChars int, chars, chars2 []string) core.TLCOpts {
 	return core.TLCOpts{Module: "MC_TLSyntax", Cfg: "MC_TLSyntax.cfg", Timeout: 12 * time.Minute,
 		Consts: (mcParams{Mode: "lex", Lang: lang, MaxChars: maxChars, FullChars: fullChars, Chars: chars, Chars2: chars2}).consts()}
@@ -404,49 +440,35 @@ func runC19(c *core.Ctx) error {
 		return replayTL1(c, d, st)
 	}
 	h := handleTL1(c, st, 1)
-
+	var jobs []mcJob
 	// (ii) the lexer model on exhaustive character-class strings
 	if c.Thorough() {
-		if _, err := runMC(c, d, "chars<=3_full", lexOpts(1, 3, 3, charsFull, charsFull), h); err != nil {
-			return err
-		}
-		if _, err := runMC(c, d, "chars<=5_reduced", lexOpts(1, 5, 4, charsReduced, charsTiny), h); err != nil {
-			return err
-		}
+		jobs = append(jobs, mcJob{"chars<=3_full", lexOpts(1, 3, 3, charsFull, charsFull)},
+			mcJob{"chars<=4_reduced", lexOpts(1, 4, 3, charsReduced, charsTiny)},
+			mcJob{"chars<=5_tiny", lexOpts(1, 5, 5, charsTiny, charsTiny)})
 	} else {
-		if _, err := runMC(c, d, "chars<=4_reduced", lexOpts(1, 4, 3, charsReduced, charsTiny), h); err != nil {
-			return err
-		}
+		jobs = append(jobs, mcJob{"chars<=3_reduced", lexOpts(1, 3, 3, charsReduced, charsReduced)})
 	}
 	// (i) exhaustive token strings
 	if c.Thorough() {
-		if _, err := runMC(c, d, "tokens<=3_full", tokOpts(3, false, false, 1), h); err != nil {
-			return err
-		}
-		if _, err := runMC(c, d, "tokens=4_core", tokOpts(4, true, true, 4), h); err != nil {
-			return err
-		}
+		jobs = append(jobs, mcJob{"tokens<=3_full", tokOpts(3, false, false, 1)}, mcJob{"tokens=4_core", tokOpts(4, true, true, 4)})
 	} else {
-		if _, err := runMC(c, d, "tokens<=2_full", tokOpts(2, false, false, 1), h); err != nil {
-			return err
-		}
-		if _, err := runMC(c, d, "tokens<=3_core", tokOpts(3, true, false, 1), h); err != nil {
-			return err
-		}
+		jobs = append(jobs, mcJob{"tokens<=2_full", tokOpts(2, false, false, 1)}, mcJob{"tokens<=3_core", tokOpts(3, true, true, 1)})
 	}
 	// (iii) derived sentences (accepted, AST of the derivation) and their mutation neighbours
-	if _, err := runMC(c, d, "derived+mutants", deriveOpts(c.Pick(3, 4), 1, c.Pick(3, 4), false, layoutsFor(c)), h); err != nil {
-		return err
-	}
-	// (iv) token soups (random walks of the token-string model)
-	o := tokOpts(40, false, false, 8)
-	o.Simulate = fmt.Sprintf("num=%d", c.Pick(1500, 60000))
+	jobs = append(jobs, mcJob{"derived+mutants", deriveOpts(c.Pick(3, 4), 1, c.Pick(2, 4), false, layoutsFor(c))})
+	// (iv) token soups: seeded random walks of the token-string model (TLC evaluates every successor of every
+	// visited state, so all of them are cases: lengths 1..40)
+	o := tokOpts(40, false, false, 1)
+	o.Simulate = fmt.Sprintf("num=%d", c.Pick(10, 60))
 	o.Depth = 41
 	o.Seed = c.Seed
-	if _, err := runMC(c, d, "soups", o, h); err != nil {
+	o.Workers = c.Pick(1, 4)
+	jobs = append(jobs, mcJob{"soups", o})
+	if err := runJobs(c, d, jobs, h); err != nil {
 		return err
 	}
-	c.Add("traces_validated_against_impl", c.Get("cases_soups"))
+	c.Add("traces_validated_against_impl", c.Pick(10, 240))
 
 	if err := selfTestTL1(c, d); err != nil {
 		return err
